@@ -44,7 +44,7 @@ fn path_of(tgt: &str) -> &'static str {
     }
 }
 
-pub fn render(e: &Value, rng: &mut Rng) -> Elem {
+pub fn render(e: &Value, idx: usize, rng: &mut Rng) -> Elem {
     let s = |k: &str| e[k].as_str().unwrap_or("").to_string();
     let is_req = s("k") == "req";
     let wf = e["wf"].as_bool().unwrap_or(true);
@@ -70,7 +70,8 @@ pub fn render(e: &Value, rng: &mut Rng) -> Elem {
         h.push_str("\r\n");
         el.head = h.into_bytes();
         el.dl = el.head.len();
-        el.body = (0..bl).map(|i| b"abcdefghijklmnopqrstuvwxyz0123456789 "[i % 37]).collect();
+        el.body = (0..bl).map(|i| b"abcdefghijklmnopqrstuvwxyz0123456789 "[(i + 5 * idx) % 37]).collect();
+        if bl > 0 { el.body[0] = b"ABCDEFGHIJ"[idx % 10]; }
     } else {
         // three malformed classes; abs_dl = 2: detected in the start line, abs_dl = 3: detected later
         let variant = if abs_dl == 2 { 0 } else { 1 + rng.below(2) };
@@ -109,12 +110,14 @@ fn map_off(e: &Elem, a: usize, rng: &mut Rng) -> usize {
 }
 
 #[derive(Debug)]
-pub struct Resp { st: i64, ver: String, date: bool, server: bool, cl: i64, blen: i64, cors: bool, stray: i64, at: Instant }
+pub struct Resp { st: i64, ver: String, date: bool, server: bool, cl: i64, blen: i64, cors: bool, stray: i64, at: Instant, bh: u64 }
 
-fn resp_json(r: &Resp) -> Value {
-    json!({"st": r.st, "ver": r.ver, "date": r.date, "server": r.server, "cl": r.cl, "blen": r.blen, "cors": r.cors, "stray": r.stray})
+fn resp_json(r: &Resp, bodies: &[u64]) -> Value {
+    // bid: 1-based script index of the request whose (non-empty) body this response carries, 0 for the fixed pages
+    let bid: i64 = if r.blen == 0 { 0 } else { match bodies.iter().position(|h| *h == r.bh) { Some(i) => i as i64 + 1, None => 0 } };
+    json!({"st": r.st, "ver": r.ver, "date": r.date, "server": r.server, "cl": r.cl, "blen": r.blen, "cors": r.cors, "bid": bid, "stray": r.stray})
 }
-fn no_resp() -> Value { json!({"st": 0, "ver": "", "date": false, "server": false, "cl": -1, "blen": 0, "cors": false, "stray": 0}) }
+fn no_resp() -> Value { json!({"st": 0, "ver": "", "date": false, "server": false, "cl": -1, "blen": 0, "cors": false, "bid": 0, "stray": 0}) }
 
 /// Strict incremental parser of the server's byte stream.
 struct RespParser { buf: Vec<u8>, pending: Option<Resp>, done: Vec<Resp>, garbage: bool }
@@ -149,7 +152,7 @@ impl RespParser {
             let mut parts = sl.splitn(3, ' ');
             let ver = parts.next().unwrap_or("").trim_start_matches("HTTP/").to_string();
             let st: i64 = parts.next().unwrap_or("").parse().unwrap_or(-1);
-            if st < 0 { self.garbage = true; self.flush(); self.done.push(Resp { st: -1, ver, date: false, server: false, cl: -1, blen: 0, cors: false, stray: self.buf.len() as i64, at: Instant::now() }); return; }
+            if st < 0 { self.garbage = true; self.flush(); self.done.push(Resp { st: -1, ver, date: false, server: false, cl: -1, blen: 0, cors: false, stray: self.buf.len() as i64, at: Instant::now(), bh: 0 }); return; }
             let (mut date, mut server, mut cors, mut cl) = (false, false, false, -1i64);
             let mut cl_count = 0;
             for l in lines {
@@ -172,7 +175,7 @@ impl RespParser {
             else if cl >= 0 {
                 if self.buf.len() < body_start + cl as usize { if eof { // truncated body
                         let have = self.buf.len() - body_start; self.flush();
-                        self.done.push(Resp { st, ver, date, server, cl, blen: have as i64, cors, stray: 0, at: Instant::now() }); self.buf.clear(); }
+                        self.done.push(Resp { st, ver, date, server, cl, blen: have as i64, cors, stray: 0, at: Instant::now(), bh: 0 }); self.buf.clear(); }
                     return; }
                 blen = cl as usize;
             } else {
@@ -181,14 +184,15 @@ impl RespParser {
                 blen = self.buf.len() - body_start;
             }
             self.flush();
-            self.pending = Some(Resp { st, ver, date, server, cl, blen: blen as i64, cors, stray: 0, at: Instant::now() });
+            let bh = crate::util::fnv64(&self.buf[body_start..body_start + blen]);
+            self.pending = Some(Resp { st, ver, date, server, cl, blen: blen as i64, cors, stray: 0, at: Instant::now(), bh });
             self.buf.drain(..body_start + blen);
             if eof && self.buf.is_empty() { self.flush(); return; }
         }
     }
     fn charge(&mut self, n: usize) {
         if n == 0 { return; }
-        match self.pending.as_mut() { Some(p) => p.stray += n as i64, None => { self.done.push(Resp { st: -1, ver: String::new(), date: false, server: false, cl: -1, blen: 0, cors: false, stray: n as i64, at: Instant::now() }); } }
+        match self.pending.as_mut() { Some(p) => p.stray += n as i64, None => { self.done.push(Resp { st: -1, ver: String::new(), date: false, server: false, cl: -1, blen: 0, cors: false, stray: n as i64, at: Instant::now(), bh: 0 }); } }
     }
     fn flush(&mut self) { if let Some(p) = self.pending.take() { self.done.push(p); } }
     /// responses whose extent is fully known (the pending one is only final once something follows or at EOF)
@@ -267,12 +271,13 @@ fn read_some(s: &mut TcpStream, p: &mut RespParser, wait: Duration) -> (usize, b
 
 pub fn run_job(job: &Job, addr: SocketAddr, seed: u64) -> Value {
     let mut rng = Rng::new(seed ^ (job.id as u64).wrapping_mul(0x9E3779B97F4A7C15));
-    let elems: Vec<Elem> = job.script.iter().map(|e| render(e, &mut rng)).collect();
+    let elems: Vec<Elem> = job.script.iter().enumerate().map(|(i, e)| render(e, i, &mut rng)).collect();
     let segs = segments(job, &elems, &mut rng);
     let mut events: Vec<Value> = vec![];
+    let bodies: Vec<u64> = elems.iter().map(|e| if e.body.is_empty() { 1 } else { crate::util::fnv64(&e.body) }).collect();
     let ev = |e: &str, n: usize, slow: bool, r: Value| json!({"e": e, "n": n, "slow": slow, "late": false, "r": r});
     let evr = |r: &Resp, since: Instant, timeout: bool| json!({"e": "Recv", "n": 0, "slow": false,
-        "late": timeout && r.at.saturating_duration_since(since).as_millis() as u64 >= IDLE_TIMEOUT_MS * 6 / 10, "r": resp_json(r)});
+        "late": timeout && r.at.saturating_duration_since(since).as_millis() as u64 >= IDLE_TIMEOUT_MS * 6 / 10, "r": resp_json(r, &bodies)});
     let mut s = match TcpStream::connect(addr) { Ok(s) => s, Err(e) => return json!({"id": job.id, "error": format!("connect: {}", e)}) };
     let _ = s.set_nodelay(true);
     let mut p = RespParser::new();
